@@ -349,6 +349,10 @@ def _find_top_for(s):
     return -1
 
 
+import functools
+
+
+@functools.lru_cache(maxsize=None)
 def _strip_generics(path):
     out = []
     depth = 0
